@@ -26,6 +26,38 @@ func excluded(c Case, f *syntax.File) string {
 			}
 		}
 	}
+	if vh.Excluded("C09-nul-after-backslash") && strings.Contains(c.Src, "\\\x00") {
+		// "\<NUL>": the NUL byte is dropped and the columns after it are off by one
+		return "C09-nul-after-backslash"
+	}
+	if vh.Excluded("C09-assign-index-newline") || vh.Excluded("C09-comment-in-test-clause") {
+		for _, it := range norm.Enumerate(f) {
+			switch n := it.Node.(type) {
+			case *syntax.Assign:
+				// o[1<newline>]= : End() adds "]=" to the end of the index on its line
+				if vh.Excluded("C09-assign-index-newline") && n.Index != nil && n.Value == nil && n.Array == nil &&
+					strings.Contains(c.Src[min(int(n.Index.End().Offset()), len(c.Src)):], "\n") {
+					rest := c.Src[min(int(n.Index.End().Offset()), len(c.Src)):]
+					if i := strings.IndexByte(rest, ']'); i >= 0 && strings.Contains(rest[:i], "\n") {
+						return "C09-assign-index-newline"
+					}
+				}
+			case *syntax.TestClause:
+				// [[ # c<newline> x ]]: the comment lands in File.Last although
+				// the statement goes on, and File.End() is the comment's end
+				if vh.Excluded("C09-comment-in-test-clause") {
+					for _, jt := range norm.Enumerate(f) {
+						if cm, ok := jt.Node.(*syntax.Comment); ok && cm.Hash.After(n.Left) && n.Right.After(cm.Hash) {
+							return "C09-comment-in-test-clause"
+						}
+						if cm, ok := jt.Node.(*syntax.Comment); ok && cm.Hash.After(n.Left) && !n.Right.IsValid() {
+							return "C09-comment-in-test-clause"
+						}
+					}
+				}
+			}
+		}
+	}
 	if vh.Excluded("C09-zsh-arith-dot") && c.Lang == "zsh" && zshArithDot.MatchString(c.Src) {
 		return "C09-zsh-arith-dot"
 	}
